@@ -1,13 +1,12 @@
-(** C05 — proofs, part 8: the statements collected (soundness of every implemented rule), the witness
-    of the known deviation, the two former deviations now behaving as specified, non-vacuity. *)
+(** C05 — proofs, part 8: the statements collected (soundness of every implemented rule), the three former
+    deviations now behaving as specified, observations, non-vacuity. *)
 From V Require Import Base.Util Gql.Ast C05.Model C05.Spec C05.Witness
      C05.Proofs C05.Proofs2 C05.Proofs3 C05.Proofs4 C05.Proofs5 C05.Proofs6 C05.Proofs7.
 
 Lemma sound_all doc :
-  check_doc doc = [] -> unique_names doc = true -> ok_app_arg_unique doc = true ->
-  forall r, rule_ok_impl r doc = true.
+  check_doc doc = [] -> unique_names doc = true -> forall r, rule_ok r doc = true.
 Proof.
-  intros Hc Hu Ha r. unfold rule_ok_impl. destruct r; cbn [rule_ok_gen].
+  intros Hc Hu r. unfold rule_ok. destruct r; cbn [rule_ok_gen].
   - apply sound_reserved; assumption.
   - apply sound_dup_field; assumption.
   - apply sound_dup_arg; assumption.
@@ -30,13 +29,8 @@ Proof.
   - apply sound_directive_misplaced; assumption.
   - apply sound_directive_repeated; assumption.
   - apply sound_directive_args; assumption.
-  - apply sound_directive_recursive_shallow; assumption.
+  - apply sound_directive_recursive; assumption.
 Qed.
-
-(** the statement at full strength (the specification's reading of every rule) does not hold of the current code *)
-Definition sound_full : Prop :=
-  forall doc, check_doc doc = [] -> unique_names doc = true -> ok_app_arg_unique doc = true ->
-  forall r, rule_ok r doc = true.
 
 (** since 556742c an Int literal outside the signed 32-bit range is reported *)
 Lemma int_range_rejected :
@@ -47,33 +41,40 @@ Proof. vm_compute. repeat split. discriminate. Qed.
 Lemma extra_default_accepted : spec_valid w_extra_default = true /\ check_doc w_extra_default = [].
 Proof. vm_compute. repeat split. Qed.
 
-Lemma nested_recursion_refuted :
-  check_doc w_nested = [] /\ unique_names w_nested = true /\ ok_app_arg_unique w_nested = true /\
-  ok_directive_recursive w_nested = false /\ ok_directive_recursive_shallow w_nested = true.
+(** since 2bc0346 directive recursion through nested input types is reported; an input-object cycle alone is not *)
+Lemma nested_recursion_rejected :
+  ok_directive_recursive w_nested = false /\ check_doc w_nested = w_nested_errs /\ w_nested_errs <> [].
+Proof. vm_compute. repeat split. discriminate. Qed.
+Lemma input_cycle_recursion_rejected :
+  ok_directive_recursive w_input_cycle_rec = false /\ check_doc w_input_cycle_rec = w_input_cycle_rec_errs /\ w_input_cycle_rec_errs <> [].
+Proof. vm_compute. repeat split. discriminate. Qed.
+Lemma input_cycle_alone_accepted : spec_valid w_input_cycle = true /\ check_doc w_input_cycle = [].
 Proof. vm_compute. repeat split. Qed.
 
-Lemma sound_full_refuted : ~ sound_full.
-Proof.
-  intros H. destruct nested_recursion_refuted as [H1 [H2 [H3 [H4 _]]]].
-  specialize (H w_nested H1 H2 H3 RDirectiveRecursive). change (ok_directive_recursive w_nested = true) in H. congruence.
-Qed.
+(** since 7d19234 every occurrence of an argument given twice is type-checked *)
+Lemma dup_arg_ill_typed_rejected :
+  ok_directive_args w_dup_arg_ill_typed = false /\ check_doc w_dup_arg_ill_typed = w_dup_arg_ill_typed_errs /\ w_dup_arg_ill_typed_errs <> [].
+Proof. vm_compute. repeat split. discriminate. Qed.
 
-(** observations outside the implemented rules: an object type without fields and a union without members
-    (they parse since 530788b / 3814a72) get no diagnostic, although the specification asks for one or more
-    fields / member types *)
+(** observations outside the implemented rules.  An object type without fields and a union without members (they
+    parse since 530788b / 3814a72) get no diagnostic, although the specification asks for one or more fields / member
+    types; an input-object literal naming a field twice with well-typed values gets none either (Input Object Field
+    Uniqueness is not implemented; before 7d19234 it was rejected by an accident of the occurrence count) *)
 Lemma empty_object_accepted : check_doc w_empty_object = [] /\ nonempty_ok w_empty_object = false /\ spec_valid w_empty_object = false.
 Proof. vm_compute. repeat split. Qed.
 Lemma empty_union_accepted : check_doc w_empty_union = [] /\ nonempty_ok w_empty_union = false /\ spec_valid w_empty_union = false.
 Proof. vm_compute. repeat split. Qed.
+Lemma dup_literal_field_accepted :
+  check_doc w_dup_literal_field = [] /\ ok_literal_field_unique w_dup_literal_field = false /\ spec_valid w_dup_literal_field = false.
+Proof. vm_compute. repeat split. Qed.
 
 (** non-vacuity: the hypotheses of [sound_all] hold of a document with directive applications, nested list and
     input-object literals; and a recursive directive definition is reported *)
-Example sound_all_nonvacuous :
-  check_doc w_valid = [] /\ unique_names w_valid = true /\ ok_app_arg_unique w_valid = true /\ spec_valid w_valid = true.
+Example sound_all_nonvacuous : check_doc w_valid = [] /\ unique_names w_valid = true /\ spec_valid w_valid = true.
 Proof. vm_compute. repeat split. Qed.
 Example reached_twice_is_not_recursion : check_doc w_twice = [] /\ spec_valid w_twice = true.
 Proof. vm_compute. repeat split. Qed.
-Example self_recursion_reported : check_doc w_self = w_self_errs /\ w_self_errs <> [] /\ ok_directive_recursive_shallow w_self = false.
+Example self_recursion_reported : check_doc w_self = w_self_errs /\ w_self_errs <> [] /\ ok_directive_recursive w_self = false.
 Proof. vm_compute. repeat split. discriminate. Qed.
 
 (** the resolver rejects two definitions of one kind with one name *)
